@@ -7,6 +7,7 @@ import xarray as xr
 import common as C
 import gen as G
 import verde as vd
+from props import large as L
 
 ID = "C15"
 TRANSLATED = "distmask"  # Gen/Neighbors.lean (KNeighbors.predict after the tree query), Gen/DistMask.lean (distance_mask, over the reals) and Gen/Distances.lean (median_distance, KNeighbors.fit) are regenerated from /repo and bridged to the model in Props/C15.lean
@@ -65,6 +66,11 @@ def mk_mask(es, ns, maxdist, qe, qn, shape2d, proj, grid, kind):
 
 
 def corpus():
+    return _corpus() + [L.case("knn_big_ints", ["max"], "corpus-64-bit-integers"),
+                       L.case("knn_big_ints", ["min"], "corpus-64-bit-integers")]
+
+
+def _corpus():
     es, ns = [0.0, 3.0, -6.0, 10.0], [0.0, 4.0, 8.0, 0.0]
     d = [1.0, 2.0, 4.0, 8.0]
     cs = [mk_knn(es, ns, d, 1, "mean", list(es) + [1.0], list(ns) + [1.0], [5], "corpus-k1-at-data"),
@@ -144,6 +150,9 @@ def generate(rng, tier):
 
 
 def impl(case):
+    if case["fn"] == "large":
+        r = C.call(L.run, case["args"])
+        return r if C.is_err(r) else ["large", r]
     a = case["args"]
     fn = case["fn"]
 
@@ -229,6 +238,8 @@ def impl(case):
 
 
 def compare(case, io, mo):
+    if case["fn"] == "large":
+        return "diff:implementation failed: " + io[1] if C.is_err(io) else "ok"
     if C.is_err(io):
         return "diff:implementation failed: " + io[1]
     fn = case["fn"]
@@ -261,6 +272,8 @@ def compare(case, io, mo):
 
 
 def oracle(case, io):
+    if case["fn"] == "large":
+        return (io[1] or None) if not C.is_err(io) else "failed: " + io[1]
     a = case["args"]
     fn = case["fn"]
     if C.is_err(io):
@@ -302,6 +315,8 @@ def oracle(case, io):
 
 
 def nontrivial(case, io):
+    if case["fn"] == "large":
+        return not C.is_err(io)
     return (not C.is_err(io)) and len(case["args"][0]) >= 2 and len(io) >= 1
 
 
